@@ -33,14 +33,14 @@ def run(ctx):
         return
     ncorp = tc.corpus_replay(ctx, binp, runner, "C15")
     q = ctx.quick
-    s1 = tc.correspondence(ctx, binp, runner, ["prefix", ctx.seed, 3000 if q else 100000], "P",
-                           "PrefixesMap history", with_spec=False)
+    s1 = tc.correspondence_chunked(ctx, binp, runner, ["prefix"], ctx.seed, 3000 if q else 60000, "P",
+                                   "PrefixesMap history", with_spec=False)
     ctx.notes["prefix_map_histories"] = s1
-    s2 = tc.correspondence(ctx, binp, runner, ["hist", ctx.seed, 4000 if q else 120000, "c15"], "H",
-                           "state history (profile c15)")
+    s2 = tc.correspondence_chunked(ctx, binp, runner, ["hist", "c15"], ctx.seed, 4000 if q else 80000, "H",
+                                   "state history (profile c15)")
     ctx.notes["history_distribution_c15"] = s2
-    s3 = tc.correspondence(ctx, binp, runner, ["inst", ctx.seed, 4000 if q else 120000], "J",
-                           "InstanceState history", with_spec=False)
+    s3 = tc.correspondence_chunked(ctx, binp, runner, ["inst"], ctx.seed, 4000 if q else 80000, "J",
+                                   "InstanceState history", with_spec=False)
     ctx.notes["instance_state_histories"] = s3
     rc, out = c.run_bin(binp, ["directed"], timeout=300)
     obs = {}
